@@ -800,6 +800,10 @@ def clone_test(test, hcalls, h):
 def check(ctx) -> None:
     prog = ctx.prog
     cls = prog.cls(CLS)
+    # Y17: a front end that standardises a column reports each result next to the compound it belongs to
+    from . import c06 as _c06
+
+    _c06.rule_index_alignment(ctx, "C20-Y17")
     funcs = [m for m in cls.methods.values() if m.name != "__init__"]
     ctx.require(len(funcs) >= 3, "MoleculeStandardizer lost its methods")
     if ctx.tier == "thorough":
